@@ -318,3 +318,35 @@ def late_binding_closures(run, project, rule, modules, what):
                            construct=f"late-binding closure over {', '.join(captured)}")
     if not n:
         run.ob(rule, True, "no closure created in a loop reads the loop variable late")
+
+
+def value_keyed_memo(run, project, rule, what):
+    """layout values compare and hash like the integer they carry (spec/common/base_type.py: __eq__ / __hash__ go through
+    int(self)), so TPMA_SESSION(1), TPMA_LOCALITY(1) and 1 are ONE key of functools.cache / lru_cache unless the cache is
+    `typed=True`.  A memoised function that is handed such a value (it reads `<param>._value`) and whose result depends on
+    the value's type must be typed; functools.cache cannot be."""
+    n = 0
+    for mname, m in sorted(project.modules.items()):
+        try:
+            raw = ast.parse(m.source)   # (the normal form expands memoised pure helpers: look at the source as written)
+        except SyntaxError:
+            continue
+        for fn in [x for x in ast.walk(raw) if isinstance(x, ast.FunctionDef)]:
+            memo = [d for d in fn.decorator_list if norm(d.func if isinstance(d, ast.Call) else d).split(".")[-1] in ("lru_cache", "cache")]
+            if not memo:
+                continue
+            params = [a.arg for a in fn.args.args + fn.args.kwonlyargs]
+            valued = sorted({x.value.id for x in ast.walk(fn) if isinstance(x, ast.Attribute) and x.attr == "_value"
+                             and isinstance(x.value, ast.Name) and x.value.id in params})
+            if not valued:
+                continue
+            n += 1
+            d = memo[0]
+            typed = isinstance(d, ast.Call) and any(k.arg == "typed" and isinstance(k.value, ast.Constant) and k.value.value is True
+                                                    for k in d.keywords)
+            run.ob(rule, typed, f"{mname.split('.')[-1]}.{fn.name}: memoised on a layout value with typed=True",
+                   f"`@{norm(d)}` on {fn.name}({', '.join(params)}): `{valued[0]}` is a layout value, and values of different types that "
+                   f"carry the same number compare and hash alike - without typed=True they share one cache entry, the second type "
+                   f"gets the first type's result ({what})", module=m, node=fn, func=fn.name, construct=f"@{norm(d)} keyed by value")
+    if not n:
+        run.ob(rule, True, "no memoised function is keyed by a layout value")
